@@ -18,6 +18,40 @@ var kcpStateAssumptions = []string{
 }
 
 var checkSpecs = map[string]*checkSpec{
+	"C01": {
+		assumptions: append([]string{
+			"the whole-history statement is the written composition (DESIGN.md §4 C01) of the machine-checked step lemmas L1 (Send), L2 (flush), L4 (Recv) plus the C04/C05 Input steps (no duplicate, nothing outside the window, consecutive delivery queue, nothing deliverable stuck) and the bounded two-endpoint scenarios listed in the evidence; the composition itself is not machine-checked",
+			"a message with fragment number 255 cannot be produced by Send (limit 255 fragments) and is excluded in the Recv lemma",
+		}, kcpStateAssumptions...),
+		stubs: commonStubs,
+		bounds: map[string]string{
+			"quick":    "L1: Send of 0..7 symbolic bytes with MSS 1..3, stream and message mode, from 3 shapes, and of 254..300 bytes at MSS 1 (fragment limit); L2: full flush from 3 shapes, every emitted PUSH decoded independently and compared with the in-flight segment it names; L4: Recv with buffers 0,1,2,8 from 4 receive shapes with symbolic fragment numbers",
+			"thorough": "same",
+		},
+		outside: "real sockets and goroutine scheduling; ciphers (C08) and FEC arithmetic (C07) are separate modules; payloads longer than 7 bytes",
+	},
+	"C02": {
+		assumptions: append([]string{
+			"liveness is decided as one-step 'nothing can get stuck' lemmas W1-W5 (DESIGN.md §4 C02) plus the bounded scenarios listed in the evidence; 'eventually' beyond the scenario bounds is the written composition",
+			"a transmitted segment's timestamp was taken from the same clock less than 2^30 ms ago; per-segment rto <= 64*60000",
+			"in message mode a message has no more fragments than the receiver's window (UDPSession.Write always satisfies this)",
+		}, kcpStateAssumptions...),
+		stubs: commonStubs,
+		bounds: map[string]string{
+			"quick":    "W1/W4 flush timers from 3 sender shapes, cc on and off; W2 Input of an arbitrary PUSH (symbolic sn incl. duplicates and numbers below rcv_nxt) from 5 receive shapes, and flush with 1..3 owed acks; W5 Check/Update at an arbitrary clock from 3 shapes; W3 is the nothing-deliverable-stuck assertion of the C04 Input/Recv steps",
+			"thorough": "same",
+		},
+		outside: "the scheduler's own timing (C17); fault patterns longer than the scenario bound",
+	},
+	"C03": {
+		assumptions: kcpStateAssumptions,
+		stubs:       commonStubs,
+		bounds: map[string]string{
+			"quick":    "P1 flush with the peer's window closed from 4 shapes (cc on/off): nothing admitted or dropped, probe timer armed in [500,120000], WASK whenever expired, back-off monotone; P2/P3 Input(WASK) then flush emits WINS with the true free space, Recv that frees a full queue sets the tell flag (C04 Recv step); P4 any regular segment with wnd>0 clears the probe state and admits queued data",
+			"thorough": "same",
+		},
+		outside: "pauses longer than the scenario bound in the end-to-end runs (the lemma P1 covers any length)",
+	},
 	"C04": {
 		assumptions: append([]string{
 			"windows are set before traffic starts (the property's own scope)",
@@ -164,7 +198,7 @@ var checkSpecs = map[string]*checkSpec{
 		},
 		stubs: commonStubs,
 		bounds: map[string]string{
-			"quick":    "RingBuffer[uint32], capacity in {8,9,16} with fully symbolic head, tail (every layout: empty, full, wrapped, unwrapped) and symbolic elements; one operation with symbolic arguments (Discard n in [0,2^62], iterator stop count in [1,cap+1]); growth 8->16, 16->32 from every full layout (symbolic head) and 64->128, 1024->1127 from boundary heads; NewRingBuffer(n) for n in [-2^40,64]",
+			"quick":    "RingBuffer[uint32], capacity in {8,9,16} ({8} for ForEach/ForEachReverse) with fully symbolic head, tail (every layout: empty, full, wrapped, unwrapped) and symbolic elements; one operation with symbolic arguments (Discard n in [0,2^62], iterator stop count in [1,cap+1]); growth 8->16, 16->32 from every full layout (symbolic head) and 64->128, 1024->1127 from boundary heads; NewRingBuffer(n) for n in [-2^40,64]",
 			"thorough": "capacity in {8..17,32,64} symbolic layouts; growth 8,9,16,32 symbolic head and 64,512,1024,1127 from all head positions",
 		},
 		outside: "capacities not in the set; RingBuffer[segment] is exercised through the KCP harnesses (C01-C05) with concrete layouts",
